@@ -1677,7 +1677,7 @@ impl<'a> Gen<'a> {
                     // clock, randomness, console and identity-keyed collections: everything a run
                     // can observe of the outside world or of addresses
                     self.tag("env-identity");
-                    let k = self.rng.below(13);
+                    let k = self.rng.below(14);
                     let o = self.pick_var(Ty::Obj).map(|v| v.name).unwrap_or_else(|| "__log".into());
                     let a = self.pick_var(Ty::Arr).map(|v| v.name).unwrap_or_else(|| "__log".into());
                     let id = self.fresh("e");
@@ -1701,6 +1701,9 @@ impl<'a> Gen<'a> {
                         12 => format!(
                             "__log.push(\"nf:\" + new Function(\"a\", \"b\", \"return String(a + b) + typeof Number + typeof String + [a].length\")({}, 2));",
                             self.sync_num(0)
+                        ),
+                        13 => format!(
+                            "class {id}C {{ #pm(): any {{ return 1; }} #qm(): any {{ return 2; }} static st: any = 2; use(): any {{ return this.#pm() + this.#qm(); }} }} const {id}k: string[] = []; for (const k in {id}C) {{ {id}k.push(k); }} __log.push(\"cls:\" + {id}k.join(\",\") + \":\" + Object.keys({id}C).join(\",\") + \":\" + Object.keys(({id}C as any).__private_methods__ || {{}}).join(\",\") + new {id}C().use());"
                         ),
                         6 => format!(
                             "const {id} = Symbol(\"q\"); const {id}o: any = {{ [{id}]: 1, a: 2, [Symbol.for(\"g\")]: 3 }}; __log.push(\"sy:\" + Object.getOwnPropertySymbols({id}o).length + String({id}o[{id}]) + String(Symbol.for(\"g\") === Symbol.for(\"g\")));"
